@@ -1154,12 +1154,14 @@ class FakeSocket:
 
     @command((Key(list, None), Key(list), SimpleString, SimpleString))
     def lmove(self, first_list, second_list, src, dst):
-        if src not in [b'LEFT', b'RIGHT']:
+        src = casenorm(src)
+        dst = casenorm(dst)
+        if src not in [b'left', b'right']:
             raise SimpleError(msgs.SYNTAX_ERROR_MSG)
-        if dst not in [b'LEFT', b'RIGHT']:
+        if dst not in [b'left', b'right']:
             raise SimpleError(msgs.SYNTAX_ERROR_MSG)
-        el = self.rpop(first_list) if src == b'RIGHT' else self.lpop(first_list)
-        self.lpush(second_list, el) if dst == b'LEFT' else self.rpush(second_list, el)
+        el = self.rpop(first_list) if src == b'right' else self.lpop(first_list)
+        self.lpush(second_list, el) if dst == b'left' else self.rpush(second_list, el)
         return el
 
     def _list_pop(self, get_slice, key, *args):
